@@ -905,7 +905,7 @@ func (in *instance) learnMediaPath(out ReqResult, th *headers.Transport) {
 var mediaMarker = []byte{0x65, 0xC0, 0x2F, 0x10, 0x0B, 0xAD}
 
 const (
-	mediaWait = 300 * time.Millisecond
+	mediaWait = 200 * time.Millisecond
 )
 
 // doMedia finds out whether media flows for session k: to a reader, a packet written to the
